@@ -90,7 +90,7 @@ def parse(text):
             continue
         if ln.startswith('Could not communicate with subprocess'):
             rep['comm_failures'] += 1
-        if ln == 'The following test left new threads behind:':
+        if ln.endswith('The following test left new threads behind:'):
             if i + 2 < n:
                 rep['threads'].append([lines[i + 1], lines[i + 2]])
             i += 3
